@@ -618,4 +618,97 @@ Qed.
 
 End GHist.
 
+(* ---------- all histories: truncateTail may drop data files ---------- *)
+Section GFull.
+Variable maxsz : N.
+
+(* the ghost as before; a truncateTail keeps the LAST |entries| items (it drops whole data files from the
+   front and the tail marker of the index advances by as many items; a reset leaves none) *)
+Definition gstepF (tb : table * list (list N)) (h : hop) : table * list (list N) :=
+  let t := fst tb in let bl := snd tb in
+  let t' := hnext maxsz encode t h in
+  (t', match hstep maxsz encode t h with
+       | Err _ => bl
+       | Ok _ => match h with
+                 | HOp (OAppend blobs) => bl ++ blobs
+                 | HOp (OTruncTail n) => skipn (length bl - length (rest_of t')) bl
+                 | _ => firstn (length (rest_of t')) bl
+                 end
+       end).
+Definition grunF (t : table) (bl : list (list N)) (hs : list hop) : table * list (list N) := fold_left gstepF hs (t, bl).
+
+Lemma ci_gstepF t bl h :
+  maxsz < two32 -> DInv maxsz t -> CI t bl -> hguard maxsz encode t h ->
+  let '(t', bl') := gstepF (t, bl) h in DInv maxsz t' /\ CI t' bl'.
+Proof.
+  intros Hmax HD HC HG. unfold gstepF. cbn [fst snd].
+  pose proof (dinv_hnext maxsz encode t h Hmax HD HG) as HD'. split; [exact HD'|].
+  unfold hnext in *. destruct (hstep maxsz encode t h) as [t'|] eqn:E; [|exact HC].
+  destruct h as [o|ci cd cm]; cbn [hstep hguard] in *.
+  - destruct o as [blobs|n|n| | |]; cbn [step op_guard] in *.
+    + destruct HG as (G1 & G2 & G3). exact (ci_op_append maxsz t blobs t' bl Hmax HD HC G1 G2 G3 E).
+    + destruct HG as (G1 & G2). exact (ci_truncate_head maxsz t n t' bl HD HC G1 G2 E).
+    + destruct HG as (G1 & G2). exact (ci_truncate_tail maxsz t n t' bl HD HC G1 G2 E).
+    + rewrite (ci_len maxsz t' bl HD' (ci_do_sync maxsz t t' bl HD E HC)). exact (ci_do_sync maxsz t t' bl HD E HC).
+    + inversion E; subst t'. assert (K : CI (sync_index t) bl) by exact HC. rewrite (ci_len maxsz _ bl HD' K). exact K.
+    + assert (K : CI t' bl) by (eapply (ci_sync_head maxsz (sync_index t)); [apply dinv_sync_index; exact HD|exact E|exact HC]).
+      rewrite (ci_len maxsz t' bl HD' K). exact K.
+  - pose proof (ci_reopen maxsz t ci cd cm t' bl HD HC HG E) as K.
+    destruct (open_crash_ok maxsz t ci cd cm HD HG) as (t'' & E'' & _ & _ & _ & _ & _ & O5 & _). rewrite E in E''. inversion E''; subst t''.
+    rewrite O5. unfold synced_of. rewrite firstn_length.
+    destruct (nsynced_le _ _ (proj1 HD)) as (Hns & _ & _). rewrite Nat.min_l by exact Hns. exact K.
+Qed.
+
+Lemma ci_grunF hs : forall t bl,
+  maxsz < two32 -> DInv maxsz t -> CI t bl -> hguarded maxsz encode t hs ->
+  let '(tf, blf) := grunF t bl hs in DInv maxsz tf /\ CI tf blf /\ tf = hrun maxsz encode t hs.
+Proof.
+  unfold grunF. induction hs as [|h r IH]; intros t bl Hmax HD HC HG; cbn [fold_left hrun].
+  - cbv iota beta. split; [exact HD|split; [exact HC|reflexivity]].
+  - destruct HG as [G1 G2].
+    pose proof (ci_gstepF t bl h Hmax HD HC G1) as K.
+    destruct (gstepF (t, bl) h) as [t1 bl1] eqn:Eg.
+    assert (Ht1 : t1 = hnext maxsz encode t h) by (unfold gstepF in Eg; inversion Eg; reflexivity).
+    destruct K as [K1 K2]. subst t1. apply IH; assumption.
+Qed.
+
+(* READABLE_IS_APPENDED over ALL guarded histories of one table *)
+Theorem table_readable_full t0 hs :
+  maxsz < two32 -> init true = Ok t0 -> hguarded maxsz encode t0 hs ->
+  let '(t, bl) := grunF t0 [] hs in
+  (forall k b, nth_error bl k = Some b -> t_hidden t <= t_offset t + N.of_nat k ->
+               retrieve decode t (t_offset t + N.of_nat k) = Ok b) /\
+  (forall ci cd (cm : bool), cut_ok t ci cd ->
+     exists t', crash_reopen true t ci cd cm = Ok t' /\ t_offset t' = t_offset t /\
+       forall i, t_hidden t' <= i -> i < t_items t' ->
+         exists b, nth_error bl (N.to_nat (i - t_offset t)) = Some b /\ retrieve decode t' i = Ok b).
+Proof.
+  intros Hmax Hini HG.
+  assert (HD0 : DInv maxsz t0) by (eapply dinv_init; eauto).
+  assert (HC0 : CI t0 []).
+  { vm_compute in Hini. inversion Hini; subst. split; [exact I|reflexivity]. }
+  pose proof (ci_grunF hs t0 [] Hmax HD0 HC0 HG) as P.
+  destruct (grunF t0 [] hs) as [t bl]. destruct P as (HD & HC & _).
+  split.
+  - intros k b Hk Hh. eapply retrieve_content; eauto. exact (proj1 HC).
+  - intros ci cd cm Hcut.
+    destruct (open_crash_ok maxsz t ci cd cm HD Hcut) as (t' & E & HD' & O1 & O2 & O3 & O4 & O5 & _).
+    exists t'. split; [exact E|]. split; [exact O1|].
+    pose proof (ci_reopen maxsz t ci cd cm t' bl HD HC Hcut E) as [HC' _].
+    intros i Hlo Hup.
+    pose proof (proj1 HD') as HI'. destruct (inv_counters _ _ HI') as [_ Hle].
+    assert (Hoff : t_offset t' <= i).
+    { pose proof HI' as HI0. unfold IdxInv, core, IdxInvC in HI0. inv_destruct HI0. lia. }
+    set (k := N.to_nat (i - t_offset t)).
+    assert (Hk : (k < length (firstn (nsynced t) bl))%nat).
+    { rewrite <- (content_length _ _ _ _ HC'). rewrite O5. rewrite O3, <- O1 in Hup. subst k. lia. }
+    destruct (nth_error (firstn (nsynced t) bl) k) as [b|] eqn:Eb; [|apply nth_error_None in Eb; lia].
+    exists b. split.
+    + eapply nth_error_firstn_some. exact Eb.
+    + replace i with (t_offset t' + N.of_nat k) by (subst k; lia).
+      eapply (retrieve_content maxsz t' (firstn (nsynced t) bl)); eauto. subst k. lia.
+Qed.
+
+End GFull.
+
 End Content.
